@@ -59,6 +59,15 @@ type c14Trial struct {
 	DelaySeed   int64         `json:"delay_seed"`
 	Questions   []c14Question `json:"questions"`
 	Callers     []c14Caller   `json:"callers"`
+	// gc mode (c14gc.go): cache cleanup passes (FailoverGroup.CleanCache, what the 2-minute cleaner runs) executed
+	// after wave w has returned and before wave w+1 is released, and optionally all the time while callers are out
+	GCAfterWave []int `json:"gc_after_wave,omitempty"`
+	GCDuring    bool  `json:"gc_during,omitempty"`
+	// cfg mode (c14cfg.go): the group is not built with the constructors but by pint's own config.Load +
+	// PrometheusGenerator from a configuration file: "static" (prometheus{} block), "filepath" / "filepath-merge" /
+	// "promquery" (discovery templates). ConcAbsent: the file does not mention concurrency (control, not judged).
+	Source     string `json:"source,omitempty"`
+	ConcAbsent bool   `json:"concurrency_absent,omitempty"`
 }
 
 func (t c14Trial) hash() string {
@@ -139,11 +148,14 @@ type c14Stats struct {
 	Slices         int            `json:"slices"`
 	WallUs         int64          `json:"wall_us"`
 	Moving         *c14MovStats   `json:"moving,omitempty"` // moving mode only
+	GC             *c14GCStats    `json:"gc,omitempty"`     // gc mode only
 }
 
 type c14Observed struct {
 	Logs  map[string][]c14Req `json:"server_logs"`
 	Calls []c14Call           `json:"calls"`
+	GC    []c14GCPass         `json:"cleanup_passes,omitempty"`
+	Setup string              `json:"setup,omitempty"` // cfg mode: the configuration file the group was built from
 }
 
 type c14Outcome struct {
@@ -284,11 +296,30 @@ func c14RunTrial(t c14Trial) (out c14Outcome) {
 		}
 		s := newC14Server(nm, base, fails, t.Mode == "rangefail", t.DelaySeed, t.MinDelayUs, t.MaxDelayUs)
 		servers = append(servers, s)
-		proms = append(proms, promapi.NewPrometheus("c14"+nm, s.srv.URL, "upstream-"+nm, nil, time.Minute, t.Concurrency, t.RateLimit, nil))
+		if t.Source == "" {
+			proms = append(proms, promapi.NewPrometheus("c14"+nm, s.srv.URL, "upstream-"+nm, nil, time.Minute, t.Concurrency, t.RateLimit, nil))
+		}
 	}
-	fg := promapi.NewFailoverGroup("c14", servers[0].srv.URL, proms, true, "up", nil, nil, nil)
+	var fg *promapi.FailoverGroup
 	reg := prometheus.NewRegistry()
-	fg.StartWorkers(reg)
+	closeGroup := func() {}
+	setupText := ""
+	if t.Source == "" {
+		fg = promapi.NewFailoverGroup("c14", servers[0].srv.URL, proms, true, "up", nil, nil, nil)
+		fg.StartWorkers(reg)
+		closeGroup = func() { fg.Close(reg) }
+	} else {
+		// the real path from a configuration file to a running group
+		built, err := c14BuildFromConfig(t, servers, reg)
+		if err != nil {
+			for _, s := range servers {
+				s.close()
+			}
+			out.Inconc = fmt.Sprintf("trial %d (%s/%s): group could not be built from the configuration file: %v", t.ID, t.Mode, t.Source, err)
+			return out
+		}
+		fg, closeGroup, setupText = built.fg, built.stop, built.hcl
+	}
 
 	calls := make([]c14Call, len(t.Callers))
 	var wg sync.WaitGroup
@@ -308,13 +339,51 @@ func c14RunTrial(t c14Trial) (out c14Outcome) {
 	for _, c := range t.Callers {
 		waveWG[c.Wave].Add(1)
 	}
+	// cleanup passes: between waves (coordinator) and, with GCDuring, continuously while callers are out
+	var gcMu sync.Mutex
+	var gcPasses []c14GCPass
+	gcPass := func(afterWave int, during bool) {
+		p := c14GCPass{AfterWave: afterWave, During: during, Start: stamp()}
+		fg.CleanCache()
+		p.End = stamp()
+		gcMu.Lock()
+		if len(gcPasses) < 5000 {
+			gcPasses = append(gcPasses, p)
+		}
+		gcMu.Unlock()
+	}
+	coordDone := make(chan struct{})
 	go func() {
+		defer close(coordDone)
 		<-startCh
 		for w := 0; w < nWaves; w++ {
 			close(waveCh[w])
 			waveWG[w].Wait()
+			if w < nWaves-1 && w < len(t.GCAfterWave) {
+				for k := 0; k < t.GCAfterWave[w]; k++ {
+					gcPass(w, false)
+				}
+			}
 		}
 	}()
+	stopGC := make(chan struct{})
+	var gcWG sync.WaitGroup
+	if t.GCDuring {
+		gcWG.Add(1)
+		go func() {
+			defer gcWG.Done()
+			<-startCh
+			for {
+				select {
+				case <-stopGC:
+					return
+				default:
+				}
+				gcPass(-1, true)
+				time.Sleep(200 * time.Microsecond)
+			}
+		}()
+	}
 	for i, c := range t.Callers {
 		calls[i] = c14Call{Caller: i, Q: c.Q}
 		wg.Add(1)
@@ -353,15 +422,21 @@ func c14RunTrial(t c14Trial) (out c14Outcome) {
 		out.Inconc = fmt.Sprintf("trial %d (%s): callers did not all return within %s (goroutines waiting in partitionLocker.lock: %d, requests still being served: %d)",
 			t.ID, t.Mode, c14TrialWatchdog, strings.Count(string(buf), "promapi.(*partitionLocker).lock("), pend)
 		fmt.Fprintf(os.Stderr, "C14WATCHDOG trial %d\n%s\n", t.ID, buf)
+		close(stopGC)
 		return out
 	}
-	fg.Close(reg)
+	close(stopGC)
+	gcWG.Wait()
+	<-coordDone
+	closeGroup()
 	logs := map[string][]c14Req{}
 	for _, s := range servers {
 		s.close()
 		logs[s.name] = s.snapshot()
 	}
-	obs := c14Observed{Logs: logs, Calls: calls}
+	gcMu.Lock()
+	obs := c14Observed{Logs: logs, Calls: calls, GC: gcPasses, Setup: setupText}
+	gcMu.Unlock()
 	c14CheckTrial(t, obs, &out)
 	out.Stats.WallUs = time.Since(began).Microseconds()
 	if len(out.Viol) > 0 {
@@ -544,10 +619,23 @@ func c14CheckTrial(t c14Trial, obs c14Observed, out *c14Outcome) {
 		if d >= t.Concurrency {
 			st.Saturated = true
 		}
-		if d > t.Concurrency {
+		if d > t.Concurrency && t.Source != "" && !t.ConcAbsent {
+			viol("inflight-exceeds-concurrency:"+c14SourceKind(t.Source),
+				fmt.Sprintf("%d requests in flight at once on upstream %s of a group that pint built from a configuration file (%s) which sets concurrency = %d (e.g. %s [%d,%d]ns and %s [%d,%d]ns)", d, nm, t.Source, t.Concurrency, w1.key, w1.a, w1.b, w2.key, w2.a, w2.b))
+		} else if d > t.Concurrency && !t.ConcAbsent {
 			viol("inflight-exceeds-concurrency",
 				fmt.Sprintf("%d requests in flight at once on upstream %s, configured concurrency is %d (e.g. %s [%d,%d]ns and %s [%d,%d]ns)", d, nm, t.Concurrency, w1.key, w1.a, w1.b, w2.key, w2.a, w2.b))
 		}
+	}
+
+	// ---- gc scenario: answered, cleaned up, asked again (c14gc.go); the per-question monitors below apply as well ----
+	gcReported := map[string]bool{}
+	if t.Mode == "gc" {
+		ok, flagged := c14CheckGC(t, obs, out, viol)
+		if !ok {
+			return
+		}
+		gcReported = flagged
 	}
 
 	// ---- moving-end scenario: its own reuse monitor (c14mov.go) ----
@@ -593,7 +681,7 @@ func c14CheckTrial(t c14Trial, obs c14Observed, out *c14Outcome) {
 				callers = append(callers, c)
 			}
 		}
-		if len(callers) == 0 {
+		if len(callers) == 0 || gcReported[class] {
 			continue
 		}
 		multi := false // multi-slice range question
@@ -631,7 +719,7 @@ func c14CheckTrial(t c14Trial, obs c14Observed, out *c14Outcome) {
 				}
 				continue
 			}
-			if c.Server != "A" && c.Server != "B" || c.URI != "upstream-"+c.Server {
+			if c.Server != "A" && c.Server != "B" || c.URI != c14WantURI(t, c.Server) {
 				viol("foreign-value:"+kind, fmt.Sprintf("caller %d asked %s and received a value of upstream %q with URI %q", c.Caller, class, c.Server, c.URI))
 				continue
 			}
